@@ -627,7 +627,17 @@ def fmt_sym(body, s, depth=0):
         return 'const'
     if k == 'place':
         out = body.local_name(s[1])
-        for t in s[2]:
+        proj = s[2]
+        # captured variables of closures / coroutines: (*_1).N... carries a debug name
+        best = None
+        for name, pl in body.vars:
+            pp = tuple(pl[1])
+            if pl[0] == s[1] and pp and proj[:len(pp)] == pp and (best is None or len(pp) > len(best[1])):
+                best = (name, pp)
+        if best:
+            out = '%s(_%d%s)' % (best[0], s[1], ''.join(best[1]).replace('*', ''))
+            proj = proj[len(best[1]):]
+        for t in proj:
             out = '(*%s)' % out if t == '*' else out + t
         return out
     if k == 'ref':
